@@ -190,26 +190,46 @@ func TestVerifRace(t *testing.T) {
 		_, err2 := SubstituteParameters(Layout{Steps: []Step{{ExpectedCommand: []string{"{P}"}}}}, map[string]string{"P": fmt.Sprint(i)})
 		return vRender(err == nil) + vRender(err2 == nil)
 	}
-	all := func(i int) string { return record(i) + signVerify(i) + dsse(i) + rules(i) }
-	seq := make([]string, n)
-	for i := 0; i < n; i++ {
-		seq[i] = all(i)
+	dumpLoad := func(i int) string {
+		out := ""
+		for w, md := range []Metadata{&Metablock{Signed: Link{Type: "link", Name: fmt.Sprintf("n%d", i)}, Signatures: []Signature{}}, &Metablock{Signed: Layout{Type: "layout", Expires: "2030-01-01T00:00:00Z"}, Signatures: []Signature{}}} {
+			p := fmt.Sprintf("%s/file%d.json", dirs[i]+"/..", i*10+w)
+			if err := md.Dump(p); err != nil {
+				return "dump error"
+			}
+			back, err := LoadMetadata(p)
+			if err != nil {
+				return "load error: " + err.Error()
+			}
+			out += fmt.Sprintf("%T", back.GetPayload())
+		}
+		return out
 	}
-	done := make(chan string, n)
+	all := func(i int) string { return dumpLoad(i) + record(i) + signVerify(i) + dsse(i) + rules(i) }
+	// the concurrent phase comes first, so that lazily filled package-level state is still cold
+	conc := make([][]string, n)
+	start := make(chan struct{})
+	done := make(chan int, n)
 	for i := 0; i < n; i++ {
 		go func(i int) {
-			bad := ""
-			for r := 0; r < 50; r++ {
-				if got := all(i); got != seq[i] {
-					bad = fmt.Sprintf("goroutine %d: concurrent result %q differs from sequential %q", i, got, seq[i])
-				}
+			<-start
+			for r := 0; r < 30; r++ {
+				conc[i] = append(conc[i], all(i))
 			}
-			done <- bad
+			done <- i
 		}(i)
 	}
+	close(start)
 	for i := 0; i < n; i++ {
-		if b := <-done; b != "" {
-			t.Error(b)
+		<-done
+	}
+	for i := 0; i < n; i++ {
+		seq := all(i)
+		for _, got := range conc[i] {
+			if got != seq {
+				t.Errorf("goroutine %d: concurrent result %q differs from sequential %q", i, got, seq)
+				break
+			}
 		}
 	}
 }
